@@ -452,7 +452,12 @@ def gen_inspection_tree_cases(rng, W, binpath, n):
     reqs = []
     for i in range(n):
         node = pipeline.make_node(rng, W, 0, ["ed0"], nsteps=1)
-        node["layout"]["inspect"] = [scen.mk_inspection("look", ["sh", "-c", "true"], [["ALLOW", "*"]], [["ALLOW", "*"]])]
+        # the inspection may be quiet or talk a lot, on either or both of its output streams (what it says depends on the
+        # product it inspects)
+        talk = rng.choice(["true", "true", "head -c 300000 /dev/zero | tr '\\000' e >&2", "head -c 300000 /dev/zero | tr '\\000' o",
+                           "(head -c 200000 /dev/zero | tr '\\000' e >&2) & head -c 200000 /dev/zero | tr '\\000' o; wait",
+                           "i=0; while [ $i -lt 3000 ]; do echo line-$i-on-stderr-with-some-more-text-to-fill-the-pipe-buffer-sooner >&2; i=$((i+1)); done"])
+        node["layout"]["inspect"] = [scen.mk_inspection("look", ["sh", "-c", talk], [["ALLOW", "*"]], [["ALLOW", "*"]])]
         pipeline.collect_requests(node, reqs)
         reqs[-1]  # noqa
     wires = scen.sign_all(binpath, reqs, nproc=1)
@@ -470,6 +475,7 @@ def gen_inspection_tree_cases(rng, W, binpath, n):
                                                                  "/proc/self/fd/0", "/nonexistent/target", "../plain.txt"])}
         cases.append({"op": "verify", "layout": json.dumps(lw), "caller_keys": [[W.kid("ed0"), W.pub("ed0")]],
                       "files": {f"{step}.{signer}.link": json.dumps(link)}, "work_files": work, "step_name": None, "reps": 1,
+                      "call_timeout_s": 30,
                       "meta": {"cls": "inspection_over_special_files"}})
     return cases
 
@@ -550,6 +556,8 @@ def isolate(binpath, case, obs, res, env=None, runner=None):
     if "crash" in o2:
         sig = o2["crash"].get("signal")
         kind = "hang(cpu-limit)" if sig in (24, 9) else f"abort(signal {sig})"
+        if o2["crash"].get("rc") == 97 and "ITV-NO-RETURN" in o2["crash"].get("log_tail", ""):
+            kind = "blocked-forever"
         tail = o2["crash"].get("log_tail", "")
         if "stack overflow" in tail:
             kind = "stack-overflow"
@@ -585,7 +593,7 @@ def shard(binpath, seed, sh, n, env=None, runner=None, tag="native"):
         cases += gen_self_similar_cases(rng, W, common.HARNESS / "target" / "release" / "itv")
     if sh == 0 and not runner:
         cases += gen_large_cases(rng, seeds)
-    cases += gen_inspection_tree_cases(rng, W, common.HARNESS / "target" / "release" / "itv", max(6, n // 300))
+    cases += gen_inspection_tree_cases(rng, W, common.HARNESS / "target" / "release" / "itv", max(12, n // 150))
     # sanitizer / valgrind runs reserve huge virtual ranges: no address-space limit there
     obs = common.run_batch(binpath, cases, cpu_s=300 if not runner else 3000, wall_s=1500 if not runner else 3400, env=env, runner=runner,
                            as_bytes=0 if (env or runner) else 3 << 30)
